@@ -1578,7 +1578,7 @@ func TestCheck(t *testing.T) {
 			"POSIX name semantics only"},
 		Real:    []string{"Worktree.Checkout (Force=false, Keep) / Worktree.Reset (MergeReset, KeepReset)", "containsUnstagedChanges, checkKeepResetConflicts, resetIndex, resetWorktree, resetWorktreeToTree", "merkletrie filesystem/index noders", "storage/filesystem"},
 		Stub:    []string{"disk (simfs)", "clock (simfs manual clock)"},
-		Runs:    map[string]int{"quick": 60000, "thorough": 1200000},
+		Runs:    map[string]int{"quick": 24000, "thorough": 600000},
 		NewPlan: func() any { return &Plan{} },
 		Gen:     genPlan,
 		Exec:    execPlan,
